@@ -301,7 +301,7 @@ impl<'a> G<'a> {
             Op::Iter => {
                 st.kind = self.rng.below(IT_KINDS as u64) as u8;
                 let n = self.rng.usize_below(len.min(12) + 4);
-                st.script = (0..n).map(|_| *self.rng.pick(&[0u8, 0, 1, 1, 2, 3, 4])).collect();
+                st.script = (0..n).map(|_| *self.rng.pick(&[0u8, 0, 0, 1, 1, 1, 2, 3, 4, 4, 200, 203, 206, 209, 215, 201, 204, 207, 213, 202])).collect();
             }
             Op::Cap => {
                 st.kind = self.rng.below(4) as u8;
